@@ -10,6 +10,7 @@ mod lit;
 mod path;
 mod probe;
 mod scopes;
+mod total;
 mod util;
 
 fn main() {
@@ -34,6 +35,10 @@ fn main() {
         "lit" => lit::run(tier, seed, &mut out),
         "litctx" => lit::run_ctx(tier, seed, &mut out),
         "path" => path::run(tier, seed, &mut out),
+        "numlit" => total::numlit(tier, seed, &mut out),
+        "total" => total::total(tier, seed, args.get(4).and_then(|s| s.parse().ok()).unwrap_or(0), &mut out),
+        "one" => total::one(tier, args.get(3).map(|s| s.as_str()).unwrap_or(""), &mut out),
+        "scale" => total::scale(tier, seed, &mut out),
         "scopes" => scopes::run(tier, seed, &mut out),
         "scopeval" => scopes::run_val(tier, seed, &mut out),
         "probe" => probe::run(&args[2..]),
